@@ -15,6 +15,7 @@ import string
 import typing as T
 
 from . import common
+from . import c14_cf
 from .common import Ctx, enc
 
 ID = 'C14'
@@ -35,6 +36,7 @@ PINS = [
     'mesonbuild.utils.universal:_dump_c_header',
     'mesonbuild.utils.universal:dump_conf_header',
     'mesonbuild.build:ConfigurationData',
+    'mesonbuild.interpreter.interpreter:Interpreter.func_configure_file',
 ]
 TRUSTED = [
     'domain: ASCII text plus non-ASCII code points that CPython classes as neither space, digit nor letter; '
@@ -47,6 +49,13 @@ TRUSTED = [
     '(CPython codecs are the reference encode/decode); the Lean model implements utf-8 and iso-8859-1 only',
     'end to end: configure_file() through `meson setup --backend=none` on generated projects, outputs compared byte for byte with '
     'the in-process do_conf_str result (templates that raise are only exercised in-process)',
+    'interpreter level: configure_file() calls evaluated by one in-process Interpreter (real parser, keyword type checks, '
+    'func_configure_file, do_conf_file / dump_conf_header / run_command_impl / shutil.copy2) over the grid {configuration '
+    'absent, {}, dict, unpopulated and populated configuration_data()} x command x copy {absent,false,true} x capture x '
+    '{0,1,2} inputs x format, plus random templates / data (35% empty data) / encoding / output_format / macro_name; '
+    'the Lean dispatch model covers the action selection, do_conf_file, dump_conf_header (json as sorted entries), copy '
+    'and capture; not modelled: @BASENAME@/@PLAINNAME@ in output:, build_subdir, depfile, install bookkeeping, what a '
+    'command does (its stdout / written bytes are parameters; ASCII without CR only)',
 ]
 
 LOOKUP_LIMIT = 1500
@@ -932,7 +941,9 @@ def _run(ctx: Ctx, I, U, rng) -> None:
                 'random beyond: 1-4 line templates from a fragment grammar (placeholder-like fragments, runs of 0-5 '
                 'backslashes, @ $ { }, CR/LF/CRLF, filler, define lines with odd spacing) plus a junk stream, data with '
                 'placeholder-looking values, ints, bools, empty strings; files through do_conf_file; headers through '
-                'dump_conf_header. A case is non-trivial when the model answer differs from the plain copy of its input '
+                'dump_conf_header; real configure_file() calls through an in-process Interpreter over the exhaustive '
+                'keyword / emptiness grid (which of configuration, command, copy are given; empty dict / unpopulated '
+                'configuration_data(); 0-2 inputs; capture) and random calls. A case is non-trivial when the model answer differs from the plain copy of its input '
                 '(or is an error), counted distinct by input.')
     cases: T.List[T.Tuple[str, T.Any, str, str]] = []   # (kind, replay-able input, protocol line, impl answer)
     regex = U.get_variable_regex('meson')
@@ -1059,6 +1070,10 @@ def _run(ctx: Ctx, I, U, rng) -> None:
 
     # -- end to end: configure_file() evaluated by meson setup (thorough tier: 16 projects; quick: 2)
     e2e_stream(ctx, I, rng, ctx.scale(2, 16), ctx.scale(6, 12))
+
+    # -- interpreter level: real configure_file() calls (in-process Interpreter) over the keyword / emptiness grid
+    c14_cf.cf_stream(ctx, rng, cases, ctx.scale(900, 12000),
+                     [None, 'cmake'] if not ctx.deep else [None, 'meson', 'cmake', 'cmake@'])
 
     # -- correspondence with the model
     ctx.count(len(cases))
@@ -1230,6 +1245,8 @@ def replay(ctx: Ctx, rep: dict) -> None:
         elif kind == 'hdr':
             data = data_unjson(case['data'])
             search_header(ctx, I, case['ofmt'], case.get('macro'), data, case.get('descs') or {})
+        elif kind == 'cf':
+            c14_cf.replay_case(ctx, {k: v for k, v in case.items() if k not in ('got', 'want', 'message', 'status')})
         for v in ctx.violations:
             print('oracle: VIOLATION', v['key'][:120], '-', v['what'])
         for k in ctx.known_hits:
